@@ -10,3 +10,4 @@ from . import values_c  # noqa: F401
 from . import overlap_c  # noqa: F401
 from . import cog_c  # noqa: F401
 from . import crsguard_c  # noqa: F401
+from . import densify_c  # noqa: F401
